@@ -37,7 +37,11 @@ type PartSpec struct {
 	Hold    int    `json:"hold,omitempty"`    // 1: somebody holds the partition during the runs, 2: exclusively locked
 	Park    int    `json:"park,omitempty"`    // > 0: a reader consumes that many events and is parked before the run
 	ParkRng bool   `json:"parkrng,omitempty"` // the parked reader's query has a RANGE (covering everything): it reads through partition.JIterator and the chunk selector instead of the journal iterator
+	Fail    bool   `json:"fail,omitempty"`    // the journal controller cannot open this partition while the statements run (injected fault): the visitor skips it
 }
+
+// selected by the statement: the source condition holds, the source is one the server can compile, the journal can be opened
+func matched(ps PartSpec, p Params) bool { return ps.Grp == "a" && !ps.Fail && p.BadSrc == "" }
 
 type Params struct {
 	SrcForm string `json:"srcform"` // expr | tags
@@ -46,6 +50,7 @@ type Params struct {
 	Before  int64  `json:"before"`
 	BefText string `json:"beftext,omitempty"` // the literal used for BEFORE when not the nanosecond integer
 	MaxDb   int64  `json:"maxdb"`
+	BadSrc  string `json:"badsrc,omitempty"` // the source condition is one the parser accepts and the builder refuses: like | func | arity
 }
 
 type Replay struct {
@@ -84,9 +89,13 @@ var caseCounter int64
 const deadline = 30 * time.Second
 
 type runner struct {
-	srv *Server
-	ctx context.Context
-	dec *tiDecor
+	srv  *Server
+	ctx  context.Context
+	dec  *tiDecor
+	jdec *jcDecor
+	tdec *tsDecor
+	// the server fell over (an observed panic left one of its locks locked): the worker goes on with a fresh one
+	broken bool
 }
 
 func atomicNext() int64 { return atomic.AddInt64(&caseCounter, 1) }
@@ -276,9 +285,16 @@ func stmtOf(vc int, p Params, dry bool) string {
 	if dry {
 		sb.WriteString(" DRYRUN")
 	}
-	if p.SrcForm == "tags" {
+	switch {
+	case p.BadSrc == "like":
+		fmt.Fprintf(&sb, " vcase=%d AND grp like \"[\"", vc)
+	case p.BadSrc == "func":
+		fmt.Fprintf(&sb, " vcase=%d AND trim(grp)=a", vc)
+	case p.BadSrc == "arity":
+		fmt.Fprintf(&sb, " grp=a AND upper(vcase, grp)=%d", vc)
+	case p.SrcForm == "tags":
 		fmt.Fprintf(&sb, " {vcase=%d,grp=a}", vc)
-	} else {
+	default:
 		fmt.Fprintf(&sb, " vcase=%d AND grp=a", vc)
 	}
 	if p.Min >= 0 {
@@ -333,6 +349,10 @@ type outcome struct {
 	readers    []parkedReader
 	p          Params
 	removedAny bool
+	dryErr     string      // error of the DRYRUN statement ("" = answered)
+	realErr    string      // error of the real statement
+	extra      []Violation // findings of the post-run observations (DESCRIBE / SHOW PARTITIONS / RANGE reads)
+	post       []string    // what the post-run observations covered (tags)
 }
 
 // runCase executes one case on the server (one case at a time per server)
@@ -390,12 +410,18 @@ func (r *runner) runCase(rp *Replay) (*outcome, error) {
 			if ps.Hold == 2 && !r.srv.TIndex.LockExclusively(src) {
 				return fmt.Errorf("could not lock partition %d exclusively", i)
 			}
+			if ps.Fail {
+				r.jdec.setFail(src, true)
+			}
 		}
 		return nil
 	}
 	release := func() {
 		for i, ps := range parts {
 			src := o.before[i].Src
+			if ps.Fail {
+				r.jdec.setFail(src, false)
+			}
 			if ps.Hold == 2 {
 				r.srv.TIndex.UnlockExclusively(src)
 			}
@@ -405,13 +431,21 @@ func (r *runner) runCase(rp *Replay) (*outcome, error) {
 		}
 	}
 	run := func(dry bool) ([]Line, []PartObs, error) {
+		r.quiesce()
 		if err := hold(); err != nil {
 			return nil, nil, err
 		}
 		out, err := r.exec(stmtOf(vc, o.p, dry))
 		release()
 		if err != nil {
-			o.execErr = fmt.Sprintf("%s: %v", stmtOf(vc, o.p, dry), err)
+			if dry {
+				o.dryErr = err.Error()
+			} else {
+				o.realErr = err.Error()
+			}
+			if o.p.BadSrc == "" || strings.HasPrefix(err.Error(), "panic") {
+				o.execErr = fmt.Sprintf("%s: %v", stmtOf(vc, o.p, dry), err)
+			}
 			out = "\n\n0 source(s) affected. \n"
 		}
 		ls, err := parseReport(out)
@@ -436,6 +470,8 @@ func (r *runner) runCase(rp *Replay) (*outcome, error) {
 	if o.realLines, o.afterReal, err = run(false); err != nil {
 		return nil, err
 	}
+	// the admin's own view and RANGE reads of what is left
+	r.postChecks(vc, parts, o, NewRng(rp.PSeed^0x5bd1e995))
 	for k := range o.readers {
 		rd := &o.readers[k]
 		q := rd.next
@@ -452,6 +488,7 @@ func (r *runner) runCase(rp *Replay) (*outcome, error) {
 		}
 	}
 	// leave nothing behind on the shared server
+	r.quiesce()
 	r.srv.Exec(fmt.Sprintf("TRUNCATE vcase=%d MAXDBSIZE 0", vc))
 	return o, nil
 }
@@ -460,6 +497,15 @@ func (r *runner) runCase(rp *Replay) (*outcome, error) {
 
 func gChunk(c ChunkObs) string {
 	return fmt.Sprintf("(mkChunk %s %s %s %s %s %s)", GN(c.Id), GN(uint64(c.Size)), GN(uint64(c.Recs)), GZ(c.MinTs), GZ(c.MaxTs), GListZ(c.Ts))
+}
+
+// gPartP: the partition as the statement with parameters p sees it (p_match: the source condition holds AND the source
+// compiles AND the journal can be opened -- the visitor of Service.Truncate is not called for it / returns at once)
+func gPartP(i int, ps PartSpec, po PartObs, p Params) string {
+	if !matched(ps, p) {
+		ps.Grp = "b"
+	}
+	return gPart(i, ps, po)
 }
 
 func gPart(i int, ps PartSpec, po PartObs) string {
@@ -524,10 +570,10 @@ func gReaders(rs []parkedReader) string {
 	return GList(it)
 }
 
-func gState(parts []PartSpec, obs []PartObs) string {
+func gState(parts []PartSpec, obs []PartObs, p Params) string {
 	it := make([]string, len(parts))
 	for i := range parts {
-		it[i] = gPart(i, parts[i], obs[i])
+		it[i] = gPartP(i, parts[i], obs[i], p)
 	}
 	return GList(it)
 }
@@ -564,6 +610,10 @@ func main() {
 				r := root.Fork()
 				jobs = append(jobs, job{genRace(r), "race"})
 			}
+			for i := 0; i < c.N(16); i++ {
+				r := root.Fork()
+				jobs = append(jobs, job{genRebuild(r), "rebuild"})
+			}
 		}
 		nw := 8
 		if len(jobs) < nw {
@@ -595,6 +645,8 @@ func main() {
 				defer srv.Stop()
 				r := &runner{srv: srv, ctx: context.Background()}
 				r.decorate()
+				r.decorateJournals()
+				r.decorateTsIndexer()
 				for {
 					mu.Lock()
 					i := next
@@ -605,6 +657,18 @@ func main() {
 					}
 					cs, err := mkCases(r, jobs[i])
 					results[i] = res{cs, err}
+					if r.broken {
+						go r.srv.Stop() // best effort: it may hang on the lock that was left locked
+						srv2, err := StartServer(ServerOpts{MaxChunkSize: maxChunkSize})
+						if err != nil {
+							return
+						}
+						defer srv2.Stop()
+						r = &runner{srv: srv2, ctx: context.Background()}
+						r.decorate()
+						r.decorateJournals()
+						r.decorateTsIndexer()
+					}
 				}
 			}()
 		}
@@ -626,6 +690,9 @@ func mkCases(r *runner, j job) ([]Case, error) {
 	if rp.Kind == "race" {
 		return r.runRace(rp, j.stream)
 	}
+	if rp.Kind == "rebuild" {
+		return r.runRebuild(rp, j.stream)
+	}
 	o, err := r.runCase(&rp)
 	if err != nil {
 		return nil, err
@@ -640,7 +707,7 @@ func mkCases(r *runner, j job) ([]Case, error) {
 		if !o.afterReal[i].Exists || len(o.afterReal[i].Chunks) != len(o.before[i].Chunks) {
 			removed = true
 		}
-		if rp.Parts[i].Grp == "a" && len(o.before[i].Chunks) > 0 {
+		if matched(rp.Parts[i], o.p) && len(o.before[i].Chunks) > 0 {
 			dataSel = true
 		}
 	}
@@ -663,22 +730,36 @@ func mkCases(r *runner, j job) ([]Case, error) {
 		if rp.Parts[i].Hold > 0 {
 			tags = append(tags, fmt.Sprintf("hold:%d", rp.Parts[i].Hold))
 		}
+		if rp.Parts[i].Fail {
+			tags = append(tags, "journal-open-fails")
+		}
 		if !o.afterReal[i].Exists {
 			tags = append(tags, "partition-dropped")
 		}
 	}
+	if o.p.BadSrc != "" {
+		tags = append(tags, "bad-source:"+o.p.BadSrc)
+	}
+	tags = append(tags, o.post...)
 	tags = append(tags, fmt.Sprintf("chunks-removed:%d", minInt(nch, 6)), fmt.Sprintf("partitions:%d", len(rp.Parts)), fmt.Sprintf("readers:%d", len(o.readers)))
-	st := gState(rp.Parts, o.before)
+	st := gState(rp.Parts, o.before, o.p)
 	sig := fmt.Sprintf("%+v|%+v", o.p, rp.Parts)
+	dryCoq := GApp("KTrunc", gParams(o.p, true), st, gLines(o.dryLines), gAfter(o.afterDry), "[]")
+	realCoq := GApp("KTrunc", gParams(o.p, false), st, gLines(o.realLines), gAfter(o.afterReal), gReaders(o.readers))
+	if o.p.BadSrc != "" {
+		// the statement must fail before any partition is looked at (model: TruncateStmt .. false)
+		dryCoq = GApp("KTruncRefused", gParams(o.p, true), st, GBool(o.dryErr == ""), gAfter(o.afterDry))
+		realCoq = GApp("KTruncRefused", gParams(o.p, false), st, GBool(o.realErr == ""), gAfter(o.afterReal))
+	}
 	dry := Case{
-		Coq:        GApp("KTrunc", gParams(o.p, true), st, gLines(o.dryLines), gAfter(o.afterDry), "[]"),
+		Coq:        dryCoq,
 		Replay:     rp,
 		NonTrivial: nontriv,
 		Stream:     j.stream + "-dryrun",
 		Key:        "dry|" + sig,
 	}
 	real := Case{
-		Coq:        GApp("KTrunc", gParams(o.p, false), st, gLines(o.realLines), gAfter(o.afterReal), gReaders(o.readers)),
+		Coq:        realCoq,
 		Replay:     rp,
 		NonTrivial: nontriv,
 		Stream:     j.stream + "-real",
